@@ -64,6 +64,10 @@ fixed("C05", "paren-argument", "6de8b16", "a parenthesized argument for a Logica
 # ---- C09
 fixed("C09", "escaped-control", "1c29a0f", "$['\\u0000'] .. $['\\u001f'] were rejected although valid", {"module": "vtools.props.c09", "func": "r_hex", "args": {"digits": "0000"}})
 fixed("C09", "escaped-control-1f", "1c29a0f", "$['\\u001F'] was rejected", {"module": "vtools.props.c09", "func": "r_hex", "args": {"digits": "001F"}})
+# ---- C12
+fixed("C12", "negated-comparison-parens", "0cefc1d", "$[?!(@.a == 1)] was serialized as $[?!@['a'] == 1] (a different, invalid query); !(!@.a) as !!@['a']", hole("$[?!(@.a == 1)]", "roundtrip"))
+fixed("C12", "double-negation-parens", "0cefc1d", "$[?!(!@.a)] was serialized as $[?!!@['a']]", hole("$[?!(!@.a)]", "roundtrip"))
+fixed("C12", "float-exponent-fixpoint", "a6cc55e", "$[?@.a>0.5E21] -> 5e+20 -> 500000000000000000000: str() was not a fixpoint for floats printed without a fraction", hole("$[?@.a>0.5E21]", "roundtrip"))
 # ---- C13
 fixed("C13", "overflow-literal", "2f6bcae", "$[?@.a==1e400] raised OverflowError", hole("$[?@.a==1e400]", "total"))
 fixed("C13", "count-on-scalar", "1a173fd", "$[?count(@) == 1] on a scalar child raised TypeError",
